@@ -578,7 +578,7 @@ impl Property for P {
         "C14"
     }
     fn rule(&self) -> String {
-        "chains of 1..4 redirects; Locations from a clean grammar on which RFC 3986 and WHATWG agree (absolute http/https with and without ports incl. explicit defaults and empty path, scheme-relative, path-absolute, relative with ./ ../ and dotted segment names, query-only, empty, fragments), 1..3 Location fields per response (last counts). Oracle: an independent implementation of RFC 3986 section 5.2 (validated on the section 5.4 examples) applied to the URI of the request just made; compared after scheme-based normalisation with Flow<Prepare>::uri(); fragment must be gone; the request line must carry that URI's path and query and Host its host (checked on the wire for the last and for intermediate hops). Missing and non-UTF-8 Locations must be errors. A hostile list (backslashes, userinfo tricks, bad ports, IPv6, other schemes, control characters, percent-encoded dots, schemes without slashes, empty authorities) is met on the first and on the second hop and judged by the RFC 3986 reading of its authority: a followed reference without scheme and authority stays on the authority of the request just made, one with a scheme and no authority, or with an empty authority, is not followed; beyond that no panic, and never a request to a host that is neither the base host nor named in the Location. Path and query arrive as they stand (sub-delims, percent-encoded octets in either case; the apostrophe in a query is watched by a workload of its own, a listed known finding). Origin-form and authority-form requests have no base: only an absolute Location may be followed. The wire workload runs GET/HEAD/OPTIONS/TRACE/POST/DELETE through 301/302/303/307/308, a quarter of them with the Host of the first request spelled out; the hostile list includes 56 non-textual values around 256 bytes. class = reference kind x base shape x hop.".into()
+        "chains of 1..4 redirects; Locations from a clean grammar on which RFC 3986 and WHATWG agree (absolute http/https with and without ports incl. explicit defaults and empty path, scheme-relative, path-absolute, relative with ./ ../ and dotted segment names, query-only, empty, fragments), 1..3 Location fields per response (last counts). Oracle: an independent implementation of RFC 3986 section 5.2 (validated on the section 5.4 examples) applied to the URI of the request just made; compared after scheme-based normalisation with Flow<Prepare>::uri(); fragment must be gone; the request line must carry that URI's path and query and Host its host (checked on the wire for the last and for intermediate hops). Missing and non-UTF-8 Locations must be errors. A hostile list (backslashes, userinfo tricks, bad ports, IPv6, other schemes, control characters, percent-encoded dots, schemes without slashes, empty authorities) is met on the first and on the second hop and judged by the RFC 3986 reading of its authority: a followed reference without scheme and authority stays on the authority of the request just made, one with a scheme and no authority, or with an empty authority, is not followed; beyond that no panic, and never a request to a host that is neither the base host nor named in the Location. Path and query arrive as they stand (sub-delims, percent-encoded octets in either case; the apostrophe in a query is watched by a workload of its own, a listed known finding). Origin-form and authority-form requests have no base: only an absolute Location may be followed. The wire workload runs GET/HEAD/OPTIONS/TRACE/POST/DELETE through 301/302/303/307/308, a quarter of them with the Host of the first request spelled out; the hostile list includes 56 non-textual values around 256 bytes. class = reference kind x base shape x hop. unresolvable: 6 methods x 5 statuses x 8 textual Locations without a resolvable host are an error in every cell. Responses with several Location fields may say Connection: close in front of them.".into()
     }
     fn assumptions(&self) -> Vec<String> {
         vec![
